@@ -661,6 +661,13 @@ Lemma lit_pins_proof :
 Proof. repeat split; reflexivity. Qed.
 
 
+(* C11: the master's refresh loop and registration compare sizes with the limit by >= (operator code 5),
+   the crowded test by > (code 4): TopoMulti.is_full = (limit <=? size), is_crowded = (limit*9 <? size*10),
+   TopoLayout.remember_oversized = (c_limit c <=? vi_size vi) *)
+Lemma lit_collect_pins_proof :
+  Funcs.Lit_CollectFull_cmp = 5 /\ Funcs.Lit_CollectCrowded_cmp = 4 /\ Funcs.Lit_isOversized_cmp = 5.
+Proof. repeat split; reflexivity. Qed.
+
 (* ================= offset width: 4-byte build (gen/Funcs.v) and 5BytesOffset build (gen/Funcs5.v) =================
    Funcs5 is translated from the files selected by the build tag 5BytesOffset.  The width-indexed
    model functions are Codecs.to_offset_w / off_parse / max_volume_size (C08; EcIndex and the index
